@@ -9,6 +9,7 @@ import (
 	"fmt"
 	"os"
 	"reflect"
+	"regexp"
 	"sort"
 	"strings"
 	"sync"
@@ -59,6 +60,7 @@ type Result struct {
 	Hung      bool            `json:"hung,omitempty"`
 	Crash     string          `json:"crash,omitempty"`
 	Plan      json.RawMessage `json:"plan,omitempty"`
+	Plain     *Result         `json:"plain,omitempty"` // the same operation with every @defer removed (C13)
 	Fault     string          `json:"fault,omitempty"`
 	FaultKind string          `json:"faultKind,omitempty"`
 }
@@ -177,6 +179,30 @@ func rootKeys(r Result) []string {
 	}
 }
 
+var deferRe = regexp.MustCompile(`\s*@defer(\([^)]*\))?`)
+var varRe = regexp.MustCompile(`\$[A-Za-z0-9_]+`)
+
+// StripDefer removes every @defer from the document. Variables that were used only by a @defer stay
+// "used" through an inline fragment that is excluded for every value of the variable
+// (`@skip(if: $v) @include(if: $v)`), so validation still passes and the result is unchanged.
+func StripDefer(q string) string {
+	open := strings.Index(q, "{")
+	if open < 0 {
+		return q
+	}
+	hdr := q[:open]
+	body := deferRe.ReplaceAllString(q[open:], "")
+	var keep strings.Builder
+	seen := map[string]bool{}
+	for _, v := range varRe.FindAllString(hdr, -1) {
+		if !seen[v] {
+			seen[v] = true
+			fmt.Fprintf(&keep, " ... @skip(if: %s) @include(if: %s) { __typename }", v, v)
+		}
+	}
+	return hdr + "{" + keep.String() + body[1:]
+}
+
 type introspectionOn struct{}
 
 func (introspectionOn) ExtensionName() string                          { return "VerifIntrospection" }
@@ -223,6 +249,13 @@ func Main(newES func(bind func(stub any, directives any, complexity any)) graphq
 			r := RunCase(es, c)
 			pj, _ := json.Marshal(c.Plan)
 			r.Plan = pj
+			if *profile == "c13" {
+				pc := c
+				pc.Query = StripDefer(c.Query)
+				pr := RunCase(es, pc)
+				pr.Doc = nil
+				r.Plain = &pr
+			}
 			enc.Encode(r)
 		}
 	case "faults":
